@@ -193,6 +193,12 @@ class SyncedDict(SyncedCollection, MutableMapping):
 
         """
         if _mapping_resolver.get_type(data) == "MAPPING":
+            if self._root is not None:
+                # A nested collection is saved as part of its root, so the rest
+                # of the data must be current before it is written back.
+                with self._load_and_save:
+                    self._update(data)
+                return
             self._update(data)
             with self._thread_lock:
                 self._save()
@@ -230,6 +236,12 @@ class SyncedDict(SyncedCollection, MutableMapping):
         return ret
 
     def clear(self):  # noqa: D102
+        if self._root is not None:
+            # A nested collection is saved as part of its root, so the rest of
+            # the data must be current before it is written back.
+            with self._load_and_save:
+                self._data.clear()
+            return
         self._data = {}
         with self._thread_lock:
             self._save()
